@@ -341,6 +341,8 @@ class Agent(dbus.service.Object):
 
             for blk in ctr.block_type(HopCountBlock):
                 blk.payload.count += 1
+                # re-encode the block data from the updated count
+                blk.delfieldval('btsd')
 
             for blk in ctr.block_type(BundleAgeBlock):
                 ctr.remove_block(blk)
